@@ -1131,6 +1131,9 @@ func (g *gen) emit(name string) string {
 	}
 	en := &env{name: name, recv: g.recv[name], params: map[string]string{}}
 	sig := g.info.Defs[fd.Name].Type().(*types.Signature)
+	if sig.TypeParams().Len() > 0 || sig.RecvTypeParams().Len() > 0 {
+		g.die(fd, "generic function %s", name)
+	}
 	isMut := g.mutates[name]
 	var ps, doc []string
 	if isMut {
